@@ -5,6 +5,11 @@
 //! the extended-line closed form for `overflowing_add_signed`, sub = add∘neg, carry ≡ 0 (mod 86400),
 //! antisymmetry and closed form of the difference, the constructor acceptance rule, single-field
 //! replacement, offset shifts keeping the fraction, and the date-time carry.
+//! The date-time operations are sent twice: as `tm.dtadd/dtsub/dtdiff` (day-number model,
+//! Model/TimeCarry.lean) and as `ar.dtadd/dtsub/dtdiff` (the packed `NaiveDateTime` model of
+//! Model/DateTime.lean, answered by lean/Chrono/Drv/DateArith.lean; date = packed word `yof`) — the
+//! latter is the model `datetime_leap_carry` / `datetime_diff` are about.
+use super::c01::yof;
 use crate::ctx::*;
 use chrono::{Datelike, FixedOffset, NaiveDate, NaiveDateTime, NaiveTime, TimeDelta, Timelike};
 use std::collections::BTreeMap;
@@ -29,6 +34,13 @@ fn show_t(t: &NaiveTime) -> String {
 fn show_ot(o: Option<NaiveTime>) -> String {
     match o {
         Some(t) => show_t(&t),
+        None => "none".into(),
+    }
+}
+/// `yof secs frac` as printed by `showRODT` of lean/Chrono/Drv/DateArith.lean
+fn show_packed(o: Option<NaiveDateTime>) -> String {
+    match o {
+        Some(r) => format!("{} {}", yof(&r.date()), show_t(&r.time())),
         None => "none".into(),
     }
 }
@@ -521,6 +533,9 @@ pub fn run(c: &mut Ctx) {
                     let got = guard(|| if is_add { dt.checked_add_signed(d) } else { dt.checked_sub_signed(d) });
                     let name = if is_add { "tm.dtadd" } else { "tm.dtsub" };
                     c.op(&format!("{name} {lo_day} {hi_day} {day} {ts} {frac} {ds} {df}"), &match &got { Ok(o) => show(*o), Err(()) => "panic".into() });
+                    // the same operation through the packed NaiveDateTime model
+                    c.op(&format!("{} {} {ts} {frac} {ds} {df}", if is_add { "ar.dtadd" } else { "ar.dtsub" }, yof(&date)), &match &got { Ok(o) => show_packed(*o), Err(()) => "panic".into() });
+                    tl.add(if (frac as i128) >= NS { "dt:packed-model,leap-operand" } else { "dt:packed-model,non-leap-operand" });
                     // oracle: time part and carry as for the time of day alone
                     let (es, ef, ec) = spec_add(ts, frac, if is_add { dn } else { -dn });
                     let eday = day as i128 + ec / 86_400;
@@ -548,6 +563,8 @@ pub fn run(c: &mut Ctx) {
                     let dt2 = NaiveDateTime::new(date2, mk(sb, fb));
                     let got = guard(|| dt.signed_duration_since(dt2));
                     c.op(&format!("tm.dtdiff {day} {ts} {frac} {day2} {sb} {fb}"), &match &got { Ok(x) => show_td(x), Err(()) => "panic".into() });
+                    c.op(&format!("ar.dtdiff {} {ts} {frac} {} {sb} {fb}", yof(&date), yof(&date2)), &match &got { Ok(x) => show_td(x), Err(()) => "panic".into() });
+                    tl.add(if (frac as i128) >= NS || (fb as i128) >= NS { "dtdiff:packed-model,leap-operand" } else { "dtdiff:packed-model,non-leap-operands" });
                     if let (Ok(x), Ok(y)) = (&got, guard(|| dt2.signed_duration_since(dt))) {
                         if td_ns(x) != -td_ns(&y) || td_ns(x) != (day - day2) as i128 * DAY + spec_diff((ts, frac), (sb, fb)) {
                             fl.hit(c, "date-time difference is not antisymmetric / not days + time-of-day difference", &format!("tm.dtdiff {day} {ts} {frac} {day2} {sb} {fb} -> {}", show_td(x)));
